@@ -227,6 +227,23 @@ func sortedSet(xs []string) []string {
 	return out
 }
 
+// moreOftenThan returns a text that occurs more often in got than in want ("" if
+// there is none): an engine may return a rule once although the lists hold its
+// text twice, but never more often than the lists hold it.
+func moreOftenThan(got, want []string) string {
+	cnt := map[string]int{}
+	for _, w := range want {
+		cnt[w]++
+	}
+	for _, g := range got {
+		cnt[g]--
+		if cnt[g] < 0 {
+			return g
+		}
+	}
+	return ""
+}
+
 func eqStrings(a, b []string) bool {
 	if len(a) != len(b) {
 		return false
